@@ -102,6 +102,25 @@ Definition spec_field (w : Z) (o : numopts) (v : uval) : option str :=
     Some (if zlen t <=? w then spaces (Z.to_nat (w - zlen t)) ++ t else ch_pct :: t)
   end.
 
+(* a format without fields: every character stands for itself, "_c" for c.
+   None when a field character occurs unescaped or the format ends in "_". *)
+Definition is_special (c : Z) : bool :=
+  (c =? ch_hash) || (c =? ch_plus) || (c =? ch_minus) || (c =? ch_amp) || (c =? ch_bang)
+  || (c =? ch_us).
+
+Fixpoint literal_text (s : str) : option str :=
+  match s with
+  | [] => Some []
+  | c :: r =>
+    if c =? ch_us then
+      match r with
+      | d :: r' => option_map (cons d) (literal_text r')
+      | [] => None
+      end
+    else if is_special c then None
+    else option_map (cons c) (literal_text r)
+  end.
+
 (* the whole format: literals copied, "&" the whole string, "!" its first
    character, numeric fields by [spec_field]; values taken left to right, one
    per field, none left over.  None = the property does not say (count or
@@ -157,6 +176,7 @@ Definition r_point_no_decimals : Z := 4.   (* "#." : the point is not printed *)
 Definition r_trailing_sign_tight : Z := 5. (* trailing sign, v >= 0, digits fill the field *)
 Definition r_not_finite : Z := 6.
 Definition r_int_too_big : Z := 7.         (* |z| >= 2^53: format() goes through float *)
+Definition r_malformed : Z := 9.           (* a field description the scanner never produces *)
 Definition r_trailing_us : Z := 10.        (* D16 *)
 Definition r_too_few : Z := 11.            (* D16 *)
 Definition r_too_many : Z := 12.           (* D16 *)
@@ -167,11 +187,18 @@ Definition r_bang_empty : Z := 15.         (* D16 *)
 Definition code_decimals (w : Z) (o : numopts) : Z :=
   match o_decpt o with Some d => w - d | None => 0 end.
 
+(* what the scanner guarantees about a field description *)
+Definition opts_wf (o : numopts) : bool :=
+  (0 <=? o_frac o)
+  && (has_point o || (o_frac o =? 0))
+  && ((snd (sign_req o) =? ch_plus) || (snd (sign_req o) =? ch_minus)).
+
 Definition field_reasons (w : Z) (o : numopts) (v : uval) : list Z :=
   match v with
   | UStr _ => [r_str_for_num]
   | UFlt FNaN | UFlt (FInf _) => [r_not_finite]
   | _ =>
+    (if opts_wf o then [] else [r_malformed]) ++
     (match v with
      | UFlt _ => if has_point o then [] else [r_float_no_point]
      | UInt z => if Z.abs z <? 2 ^ 53 then [] else [r_int_too_big]
